@@ -101,6 +101,11 @@ func buildSim(race bool) (string, *rewriteStats, error) {
 		overlay[filepath.Join(repoDir, "internal", "verifsim", filepath.Base(f))] = f
 	}
 	overlay[filepath.Join(repoDir, "internal", "verifsim", "simrt", "simrt.go")] = filepath.Join(verifDir, "sim", "simrt", "simrt.go")
+	// seam in a dependency: database/sql hands a freed connection to a *random* waiting request
+	// (math/rand/v2, not seedable). The overlay replaces that one choice by a hook the simulator owns.
+	if err := overlaySQLPick(scratch, overlay); err != nil {
+		return "", nil, err
+	}
 	ob, _ := json.Marshal(map[string]any{"Replace": overlay})
 	ofile := filepath.Join(scratch, "overlay.json")
 	os.WriteFile(ofile, ob, 0o644)
@@ -186,3 +191,40 @@ func pruneCache(keep string) {
 }
 
 var _ = strings.TrimSpace
+
+func overlaySQLPick(scratch string, overlay map[string]string) error {
+	out, err := exec.Command("go1.26.8", "env", "GOROOT").Output()
+	if err != nil {
+		return fmt.Errorf("go env GOROOT: %v", err)
+	}
+	src := filepath.Join(strings.TrimSpace(string(out)), "src", "database", "sql", "sql.go")
+	b, err := os.ReadFile(src)
+	if err != nil {
+		return err
+	}
+	const old = "pick := rand.IntN(len(s.s))"
+	if !strings.Contains(string(b), old) {
+		return fmt.Errorf("database/sql: expected statement %q not found in %s", old, src)
+	}
+	nb := strings.Replace(string(b), old, "pick := verifPick(len(s.s))", 1)
+	nb += `
+
+// VerifPick is a verification seam (added by the /verif build overlay only): the choice among
+// waiting connection requests, otherwise random.
+var VerifPick func(n int) int
+
+func verifPick(n int) int {
+	if VerifPick != nil {
+		return VerifPick(n) % n
+	}
+	return rand.IntN(n)
+}
+`
+	dst := filepath.Join(scratch, "rw", "goroot_database_sql_sql.go")
+	os.MkdirAll(filepath.Dir(dst), 0o755)
+	if err := os.WriteFile(dst, []byte(nb), 0o644); err != nil {
+		return err
+	}
+	overlay[src] = dst
+	return nil
+}
